@@ -22,7 +22,7 @@ TECHNIQUE = "runtime monitoring: reference-model (shadow mapping) oracle over ge
 RULE = ("struct: 9 scatterer shapes (sphere, layered 2-3, Spheres 1-4, spheroid, cylinder, rigid cluster) x random site "
         "assignment from a pool of 1-6 priors (p_share 0.4) x expression kinds {prior, a*P+b, P+Q, sqrt(P), complex}; theory "
         "MieLens/AberratedMieLens with prior parameters in a third of the cases; ties: every subset of size>=2 of 2-5 equal "
-        "priors; roundtrip: random physical scatterers. non-trivial = model has >=1 parameter; distinct by rounded case JSON")
+        "priors; roundtrip: random physical scatterers; nested: a rigid cluster as member of a collection (either place, one level deeper), labelled-array values. non-trivial = model has >=1 parameter; distinct by rounded case JSON")
 ASSUMPTIONS = ["site values are read from the rebuilt scatterer's public attributes (n, r, center, rotation, h, d, scatterers[i])"]
 MIN_NONTRIVIAL = 20
 
